@@ -35,8 +35,8 @@ std::string WorldQ::strip_prepend(const std::string &recip) const {
 }
 
 void WorldQ::check_bounce(GMsg *b) {
-  if (enabled("c03")) {
-    // C03: which of the recorded failures does the queued bounce actually name, with its reason?
+  if (enabled("c03") || enabled("c14")) {
+    // C03/C14: which of the recorded failures does the queued bounce actually name, with its reason?
     auto oi = bynum.find(strtoull(b->bounce_of.c_str(), 0, 10)); Inode *bm = k->lookup(qp("mess", b->num, true));
     if (oi != bynum.end() && bm) for (auto &r : oi->second->rc) if (r.noted) {
       std::string a = strip_prepend(r.addr); for (auto &c : a) if (c == '\n') c = '_';
@@ -44,7 +44,7 @@ void WorldQ::check_bounce(GMsg *b) {
       std::string head = std::string(had_lossy_crash ? "" : "\n") + "<" + a + ">:\n"; size_t pos = bm->data.find(head);
       r.named = false;
       for (; pos != std::string::npos && !r.named; pos = bm->data.find(head, pos + 1)) {   // a recipient retried after a crash can have an older paragraph as well
-        if (r.last_verdict != 'D' || had_lossy_crash) { r.named = true; break; }
+        if (r.last_verdict != 'D' || had_lossy_crash || !junk[0].empty() || !junk[1].empty()) { r.named = true; break; }   // (with a hostile peer on the report channel the attribution of texts to recipients is ambiguous: the name is required, the text is not compared)
         size_t s0 = pos + head.size(), e0 = bm->data.find("\n\n", s0 ? s0 - 1 : 0); std::string got = bm->data.substr(s0, e0 == std::string::npos || e0 < s0 ? 0 : e0 - s0);
         std::string a1, b1; for (char c : r.fail_text) if (c != '\n' && c != '/') a1 += c; for (char c : got) if (c != '\n' && c != '/') b1 += c;
         if (a1 == b1 || (std::min(a1.size(), b1.size()) >= 5000 && a1.compare(0, std::min(a1.size(), b1.size()), b1, 0, std::min(a1.size(), b1.size())) == 0)) r.named = true;   // reports are cut at REPORTMAX (10000) bytes
